@@ -100,6 +100,22 @@ func (s *AddrScenario) Setup(k *sim.Kernel) {
 			cl := classifyAddr(st.Addr)
 			sim.Rec("step", sp(i))
 			switch st.Mode {
+			case "held":
+				// a foreign listener holds the endpoint: the bind fails in the
+				// operating system, after the string was accepted
+				if cl.kind != "valid" {
+					continue
+				}
+				foreign, ferr := sim.Listen(cl.network, cl.addr)
+				if ferr != nil {
+					continue
+				}
+				err := svc.Bind(ctx, st.Addr)
+				rec(i, "held-bind", err)
+				if err == nil {
+					svc.Shutdown()
+				}
+				foreign.Close()
 			case "bind":
 				err := svc.Bind(ctx, st.Addr)
 				rec(i, "bind", err)
@@ -205,6 +221,12 @@ func (s *AddrScenario) Check(k *sim.Kernel) []sim.Violation {
 		first := "bind"
 		if st.Mode == "listen" {
 			first = "return"
+		}
+		if st.Mode == "held" {
+			if r, ok := o.m["held-bind"]; ok && !strings.HasPrefix(r, "error") {
+				out = append(out, vio("bind", "bind-of-held-endpoint-succeeded", "step %d: Bind(%q) returned %q although another listener holds (%s, %q)", i, st.Addr, r, cl.network, cl.addr))
+			}
+			continue
 		}
 		res, have := o.m[first]
 		switch cl.kind {
@@ -341,7 +363,7 @@ func genC19(seed uint64, tier string) Scenario {
 			// filesystem sockets belong to the real-kernel leg
 			a = "unix:@" + strings.TrimPrefix(a, "unix:")
 		}
-		s.Steps = append(s.Steps, AddrStep{Addr: a, Mode: g.Pick("bind", "bind", "serve", "listen")})
+		s.Steps = append(s.Steps, AddrStep{Addr: a, Mode: g.Pick("bind", "bind", "serve", "listen", "held")})
 	}
 	return s
 }
